@@ -31,6 +31,7 @@ type c03Seed struct {
 	// when non-empty, only positions whose path starts with this prefix are mutated (variants
 	// that differ from another seed only inside one mapping)
 	onlyPath string
+	direct   bool // with onlyPath: only the direct scalar children of that container
 }
 
 // c03DerivedSeeds produces, for every mapping of a maximal seed, the reductions that keep the
@@ -41,6 +42,7 @@ func c03DerivedSeeds(r *vReport, cats []*vCatalogue) []*c03Seed {
 	for _, c := range cats {
 		out = append(out, &c03Seed{name: c.Seed, cat: c})
 		out = append(out, c03Reorderings(c, &skipped)...)
+		out = append(out, c03SiblingVariations([]*vCatalogue{c}, &skipped)...)
 		for _, m := range c.Mappings {
 			var keyNames []string
 			for _, k := range m.Keys {
@@ -92,6 +94,55 @@ func c03DerivedSeeds(r *vReport, cats []*vCatalogue) []*c03Seed {
 		}
 	}
 	r.Extra["sum_derived_seeds_not_clean_skipped"] = float64(skipped)
+	return out
+}
+
+// c03SiblingVariations produces, for every scalar position q of a maximal seed and each of a few
+// replacement values of another type (number, bool, null, empty, an expression of type any / of
+// type string), the seed with q replaced — kept when it still lints clean — in which the scalars
+// of the same container (the other elements of q's sequence, the other values of q's mapping) are
+// mutated: whether a value is checked must not depend on the type or form of its neighbours.
+func c03SiblingVariations(cats []*vCatalogue, skipped *int) []*c03Seed {
+	values := []string{"1", "true", "null", "''", "'${{ fromJSON(vars.X) }}'", "'${{ github.sha }}'"}
+	container := func(path string) string {
+		if strings.HasSuffix(path, "]") {
+			return path[:strings.LastIndex(path, "[")]
+		}
+		if i := strings.LastIndex(path, "."); i >= 0 {
+			return path[:i]
+		}
+		return ""
+	}
+	var out []*c03Seed
+	for _, c := range cats {
+		for _, q := range c.Scalars {
+			cont := container(q.Path)
+			sibs := 0
+			for _, o := range c.Scalars {
+				if o != q && container(o.Path) == cont {
+					sibs++
+				}
+			}
+			if sibs == 0 || cont == "" {
+				continue
+			}
+			for vi, v := range values {
+				src := c.Replace(q, v)
+				res := vLint(src, nil)
+				if res.Panic != "" || res.Err != nil || len(res.Errs) > 0 {
+					*skipped++
+					continue
+				}
+				name := fmt.Sprintf("%s<%s=value%d>", c.Seed, q.Path, vi)
+				dc, err := vBuildCatalogue(name, src)
+				if err != nil {
+					*skipped++
+					continue
+				}
+				out = append(out, &c03Seed{name: name, cat: dc, onlyPath: cont, direct: true})
+			}
+		}
+	}
 	return out
 }
 
@@ -339,6 +390,12 @@ func TestVerifC03(t *testing.T) {
 		for _, p := range sd.cat.Scalars {
 			if sd.onlyPath != "" && !(p.Path == sd.onlyPath || strings.HasPrefix(p.Path, sd.onlyPath+".") || strings.HasPrefix(p.Path, sd.onlyPath+"[")) {
 				continue
+			}
+			if sd.direct {
+				rest := strings.TrimPrefix(p.Path, sd.onlyPath)
+				if strings.Count(rest, ".")+strings.Count(rest, "[") != 1 {
+					continue
+				}
 			}
 			pathsSeen[p.NPath] = true
 			for pl := range c03Payloads {
